@@ -51,23 +51,30 @@ Inductive stmt :=
 | SIf (c : expr) (t : stmts) (has_else : bool) (e : stmts)   (* e = TNil when there is no else *)
 | SFor (c : expr) (b : stmts)
 | SBlock (b : stmts)
-with stmts := TNil | TCons (s : stmt) (r : stmts).
+| SSwitch (tag : expr) (cs : clauses)
+with stmts := TNil | TCons (s : stmt) (r : stmts)
+with clauses := CNil | CCons (es : exprs) (b : stmts) (r : clauses).   (* es = XNil: the default clause *)
+
+Fixpoint capp (a b : clauses) : clauses := match a with CNil => b | CCons es bd r => CCons es bd (capp r b) end.
 
 Fixpoint tapp (a b : stmts) : stmts := match a with TNil => b | TCons s r => TCons s (tapp r b) end.
 
 Inductive sop :=
 | OE (o : eop)
 | OAssign | OEndStmt | OReturn (n : nat)
-| OIf | OThen | OElse | OEnd | OFor | OBlock.
+| OIf | OThen | OElse | OEnd | OFor | OBlock
+| OSwitch | OCase | OCaseThen (n : nat) | ODefault.
 
-Inductive fkind := KTop | KIf | KFor | KBlock.
-Record frame := mkF { fk : fkind; fcond : option expr; fthen : option stmts; fbody : stmts }.
+Inductive fkind := KTop | KIf | KFor | KBlock | KSwitch | KCase.
+(* fcl: clauses collected by a switch frame; fes: expressions of a case frame (fthen = Some _ once
+   its Then / DefaultThen has been issued) *)
+Record frame := mkF { fk : fkind; fcond : option expr; fthen : option stmts; fbody : stmts; fcl : clauses; fes : exprs }.
 
 Definition state := (list expr * list frame)%type.
 
 Definition emit (s : stmt) (fs : list frame) : option (list frame) :=
   match fs with
-  | f :: r => Some (mkF (fk f) (fcond f) (fthen f) (tapp (fbody f) (TCons s TNil)) :: r)
+  | f :: r => Some (mkF (fk f) (fcond f) (fthen f) (tapp (fbody f) (TCons s TNil)) (fcl f) (fes f) :: r)
   | [] => None
   end.
 
@@ -90,14 +97,40 @@ Definition sstep (o : sop) (st : state) : option state :=
       | Some (es, stk') => match emit (SReturn es) fs with Some fs' => Some (stk', fs') | None => None end
       | None => None
       end
-  | OIf => Some (stk, mkF KIf None None TNil :: fs)
-  | OFor => Some (stk, mkF KFor None None TNil :: fs)
-  | OBlock => Some (stk, mkF KBlock None None TNil :: fs)
+  | OIf => Some (stk, mkF KIf None None TNil CNil XNil :: fs)
+  | OFor => Some (stk, mkF KFor None None TNil CNil XNil :: fs)
+  | OBlock => Some (stk, mkF KBlock None None TNil CNil XNil :: fs)
+  | OSwitch => Some (stk, mkF KSwitch None None TNil CNil XNil :: fs)
+  | OCase =>
+      match fs with
+      | f :: _ => match fk f, fcond f with
+                  | KSwitch, Some _ => Some (stk, mkF KCase None None TNil CNil XNil :: fs)
+                  | _, _ => None
+                  end
+      | [] => None
+      end
+  | OCaseThen n =>
+      match fs with
+      | f :: r =>
+          match fk f, fthen f, pop_kids n stk XNil with
+          | KCase, None, Some (es, stk') => Some (stk', mkF KCase None (Some TNil) TNil CNil es :: r)
+          | _, _, _ => None
+          end
+      | [] => None
+      end
+  | ODefault =>
+      match fs with
+      | f :: _ => match fk f, fcond f with
+                  | KSwitch, Some _ => Some (stk, mkF KCase None (Some TNil) TNil CNil XNil :: fs)
+                  | _, _ => None
+                  end
+      | [] => None
+      end
   | OThen =>
       match stk, fs with
       | c :: stk', f :: r =>
           match fk f, fcond f with
-          | KIf, None | KFor, None => Some (stk', mkF (fk f) (Some c) None (fbody f) :: r)
+          | KIf, None | KFor, None | KSwitch, None => Some (stk', mkF (fk f) (Some c) None (fbody f) (fcl f) (fes f) :: r)
           | _, _ => None
           end
       | _, _ => None
@@ -106,7 +139,7 @@ Definition sstep (o : sop) (st : state) : option state :=
       match fs with
       | f :: r =>
           match fk f, fcond f, fthen f with
-          | KIf, Some c, None => Some (stk, mkF KIf (Some c) (Some (fbody f)) TNil :: r)
+          | KIf, Some c, None => Some (stk, mkF KIf (Some c) (Some (fbody f)) TNil CNil XNil :: r)
           | _, _, _ => None
           end
       | [] => None
@@ -114,17 +147,31 @@ Definition sstep (o : sop) (st : state) : option state :=
   | OEnd =>
       match fs with
       | f :: r =>
-          let built :=
-            match fk f, fcond f, fthen f with
-            | KIf, Some c, None => Some (SIf c (fbody f) false TNil)
-            | KIf, Some c, Some t => Some (SIf c t true (fbody f))
-            | KFor, Some c, _ => Some (SFor c (fbody f))
-            | KBlock, _, _ => Some (SBlock (fbody f))
-            | _, _, _ => None
-            end in
-          match built with
-          | Some s => match emit s r with Some r' => Some (stk, r') | None => None end
-          | None => None
+          match fk f with
+          | KCase =>
+              (* a finished clause goes to the enclosing switch frame *)
+              match fthen f, r with
+              | Some _, p :: r' =>
+                  match fk p with
+                  | KSwitch => Some (stk, mkF KSwitch (fcond p) (fthen p) (fbody p) (capp (fcl p) (CCons (fes f) (fbody f) CNil)) (fes p) :: r')
+                  | _ => None
+                  end
+              | _, _ => None
+              end
+          | _ =>
+            let built :=
+              match fk f, fcond f, fthen f with
+              | KIf, Some c, None => Some (SIf c (fbody f) false TNil)
+              | KIf, Some c, Some t => Some (SIf c t true (fbody f))
+              | KFor, Some c, _ => Some (SFor c (fbody f))
+              | KBlock, _, _ => Some (SBlock (fbody f))
+              | KSwitch, Some tag, _ => Some (SSwitch tag (fcl f))
+              | _, _, _ => None
+              end in
+            match built with
+            | Some s => match emit s r with Some r' => Some (stk, r') | None => None end
+            | None => None
+            end
           end
       | [] => None
       end
@@ -147,6 +194,14 @@ Fixpoint scompile (s : stmt) : list sop :=
   | SIf c t true e => OIf :: lift (ecompile c) ++ OThen :: tcompile t ++ OElse :: tcompile e ++ [OEnd]
   | SFor c b => OFor :: lift (ecompile c) ++ OThen :: tcompile b ++ [OEnd]
   | SBlock b => OBlock :: tcompile b ++ [OEnd]
+  | SSwitch tag cs => OSwitch :: lift (ecompile tag) ++ OThen :: ccompile cs ++ [OEnd]
   end
 with tcompile (l : stmts) : list sop :=
-  match l with TNil => [] | TCons s r => scompile s ++ tcompile r end.
+  match l with TNil => [] | TCons s r => scompile s ++ tcompile r end
+with ccompile (l : clauses) : list sop :=
+  match l with
+  | CNil => []
+  | CCons es b r =>
+      (match es with XNil => [ODefault] | _ => OCase :: lift (xcompile es) ++ [OCaseThen (xlen es)] end)
+      ++ tcompile b ++ OEnd :: ccompile r
+  end.
